@@ -240,11 +240,12 @@ def answerPls (s : St) (toks : List String) : String :=
         (voxSum s.b (fun z y x => pen z y x * cond z y x * kap z y x) * pf.abs)
   | ["grad"] =>
     joinS <| (voxels s.b).map fun (z, y, x) =>
+      -- kappa is a factor of the flux of its own voxel
+      let fe (g a : Img Float) (z y x : Int) : Float := if inImg z y x then fluxErr g a z y x * kap z y x else 0
       let e : Float :=
-        fluxErr gx A.ax z y x + (if inImg z y (x - 1) then fluxErr gx A.ax z y (x - 1) else 0)
-        + fluxErr gy A.ay z y x + (if inImg z (y - 1) x then fluxErr gy A.ay z (y - 1) x else 0)
-        + (if only2d then 0 else fluxErr gz A.az z y x + (if inImg (z - 1) y x then fluxErr gz A.az (z - 1) y x else 0))
-      vmF (if pf == 0 then 0 else plsGradOf only2d pf A F κ s.b z y x) (e * kap z y x * pf.abs)
+        fe gx A.ax z y x + fe gx A.ax z y (x - 1) + fe gy A.ay z y x + fe gy A.ay z (y - 1) x
+        + (if only2d then 0 else fe gz A.az z y x + fe gz A.az (z - 1) y x)
+      vmF (if pf == 0 then 0 else plsGradOf only2d pf A F κ s.b z y x) (e * pf.abs)
   | _ => "bad-op"
 end float
 
